@@ -223,7 +223,7 @@ impl Prop for Config {
         3_000
     }
     fn n_cases(&self, tier: Tier) -> u32 {
-        tier.pick(40_000, 800_000)
+        tier.pick(40_000, 300_000)
     }
     fn run(&self, case: &ConfigAny, rec: &mut Rec) -> CheckResult {
         match case {
